@@ -1,6 +1,8 @@
 /* C17 scenario: aws_mem_tracer (levels none / bytes / stacks) under the controlled scheduler.
  * Scenario lines:
- *   TRACER <level 0|1|2> <frames_per_stack>
+ *   TRACER <level 0|1|2> <frames_per_stack> [<flavour>]   flavour of the traced allocator: 0 = acquire/release/realloc/
+ *                        calloc (default), 1 = acquire/release only, 2 = no calloc, 3 = no realloc (the library's
+ *                        front-end then emulates the missing calls on top of the tracer)
  *   MAIN <op> ...        main thread, before the worker threads
  *   THREAD <k> <op> ...  k = 1..3 worker threads, each owns slots k*16 .. k*16+15
  *   POST <op> ...        main thread, after the workers were joined
@@ -28,6 +30,8 @@ struct blk {
 static struct blk slots[NSLOT];
 static struct aws_allocator *sba; /* the tracing allocator */
 static int level;
+static int flavour;
+static struct aws_allocator traced; /* the allocator handed to aws_mem_tracer_new: vh_alloc() or a reduced copy of it */
 static int next_id;
 static bool concurrent_phase;
 static uintptr_t pages[4096];
@@ -246,6 +250,8 @@ static void scenario(char **lines, int nlines) {
         } else if (strcmp(tok, "TRACER") == 0) {
             level = atoi(strtok_r(NULL, " ", &save));
             mt = atoi(strtok_r(NULL, " ", &save)); /* frames per stack */
+            const char *fl = strtok_r(NULL, " ", &save);
+            flavour = fl ? atoi(fl) : 0;
         } else if (strcmp(tok, "MAIN") == 0) {
             parse_ops(&mainp, &save);
         } else if (strcmp(tok, "POST") == 0) {
@@ -257,8 +263,16 @@ static void scenario(char **lines, int nlines) {
         }
         free(dup);
     }
-    sba = aws_mem_tracer_new(vh_alloc(), NULL, (enum aws_mem_trace_level)level, (size_t)mt);
+    traced = *vh_alloc();
+    if (flavour == 1 || flavour == 3) {
+        traced.mem_realloc = NULL;
+    }
+    if (flavour == 1 || flavour == 2) {
+        traced.mem_calloc = NULL;
+    }
+    sba = aws_mem_tracer_new(&traced, NULL, (enum aws_mem_trace_level)level, (size_t)mt);
     vh_begin("Setup");
+    vh_int("flavour", flavour);
     vh_int("level", level);
     vh_int("frames", mt);
     vh_end();
@@ -298,7 +312,7 @@ static void scenario(char **lines, int nlines) {
     vh_end();
     struct aws_allocator *inner = aws_mem_tracer_destroy(sba);
     vh_begin("Unwrapped");
-    vh_int("same", inner == vh_alloc());
+    vh_int("same", inner == &traced);
     vh_end();
     sba = NULL;
     vh_begin("Destroyed");
